@@ -19,13 +19,15 @@ def parsePolicy? (s : String) : Option Policy :=
   | [ns, rr, mo, ms, mf, dp, fr] => do
     -- the two relay-policy tuning constants are not part of the model: they come from the tree (regenerated facts)
     pure ⟨← parseBool? ns, ← parseBool? rr, ← mo.toInt?, ← ms.toNat?, ← mf.toNat?, ← parseBool? dp, ← parseBool? fr,
-      BV.Generated.C10.minStandardTxNonWitnessSize.toNat, BV.Generated.C10.defaultBlockPrioritySize.toNat⟩
+      BV.Generated.C10.minStandardTxNonWitnessSize.toNat, BV.Generated.C10.defaultBlockPrioritySize.toNat,
+      BV.Generated.C10.minHighPriority.toNat⟩
   | _ => none
 
-/-- input `txid.idx.seq[.recipe]` -/
-def parseIn? (s : String) : Option (OutPoint × Nat) :=
+/-- input `txid.idx.seq.recipe[.value]` -/
+def parseIn? (s : String) : Option (OutPoint × Nat × Nat) :=
   match s.splitOn "." with
-  | t :: i :: q :: _ => do pure (⟨← t.toNat?, ← i.toNat?⟩, ← q.toNat?)
+  | [t, i, q, _] => do pure (⟨← t.toNat?, ← i.toNat?⟩, ← q.toNat?, 0)
+  | [t, i, q, _, v] => do pure (⟨← t.toNat?, ← i.toNat?⟩, ← q.toNat?, ← v.toNat?)
   | _ => none
 
 /-- times on the line are offsets from the harness's base time; the model's clock starts at `timeBase` -/
@@ -50,7 +52,8 @@ def bit (n k : Nat) : Bool := (n / 2^k) % 2 = 1
 /-- `id:ins:outs:lock:ver:fee:vsize:ssize:size:bits` -/
 def parseTx? (s : String) : Option TxAbs :=
   match s.splitOn ":" with
-  | [id, ins, outs, lock, ver, fee, vsize, ssize, size, bits] => do
+  | id :: ins :: outs :: lock :: ver :: fee :: vsize :: ssize :: size :: bits :: more => do
+    let prioSize ← match more with | [] => some 0 | [p] => p.toNat? | _ => none
     let id ← id.toNat?
     let ins ← (splitList ins ",").mapM parseIn?
     -- `nOuts` counts the spendable outputs; provably unspendable (null-data) outputs come last in every
@@ -63,16 +66,16 @@ def parseTx? (s : String) : Option TxAbs :=
     if vsize = 0 then none
     -- ids are ranks: a transaction can only reference what existed before it
     if !ins.all (fun p => p.1.txid < id) then none
-    pure { id := id, ins := ins.map (·.1), seqs := ins.map (·.2), nOuts := nOuts,
+    pure { id := id, ins := ins.map (·.1), seqs := ins.map (·.2.1), inVals := ins.map (·.2.2), prioSize := prioSize, nOuts := nOuts,
            lockTime := ← parseLock? lock, version := ((← ver.toInt?) % 4294967296).toNat, fee := ← fee.toNat?, vsize := vsize, ssize := ← ssize.toNat?,
            size := ← size.toNat?, sane := bit b 0, coinbase := bit b 1, valuesOk := bit b 2, std := bit b 3,
-           sigOk := bit b 5, highPrio := bit b 6, scriptsOk := bit b 7 }
+           sigOk := bit b 5, scriptsOk := bit b 7 }
   | _ => none
 
 def cbTx (id nOuts : Nat) : TxAbs :=
   { id := id, ins := [], seqs := [], nOuts := nOuts, lockTime := 0, version := 1, fee := 0, vsize := 100, ssize := 100,
     size := 100, sane := true, coinbase := true, valuesOk := true, std := true,
-    sigOk := true, highPrio := false, scriptsOk := true }
+    sigOk := true, inVals := [], prioSize := 0, scriptsOk := true }
 
 inductive Cmd
   | op (o : Op)
